@@ -257,8 +257,14 @@ func scenarios() []scenario {
 		// (a) queue-full drop with WAL disabled: 204 and lost
 		{"nowal-ack:queue-full-dropped-but-acknowledged", false, 1, []op{k("restart"), k("hold"),
 			w(0, r(1, 0), r(2, 0)), w(0, r(3, 0), r(4, 0)), w(0, r(5, 0), r(6, 0))}},
-		// (b) queue-full drop with WAL: flag not set -> no replay; rotated file purged after safeAge
+		// (b) queue-full drop with WAL, the tick comes in time (file rotated, younger than safeAge): before
+		// repair B (52926d5) the flag was not raised, no replay ran and the shutdown purge removed the rows
 		{"loss:queue-full-drop-never-replayed-then-purged", true, 1, []op{k("restart"), k("hold"),
+			w(0, r(1, 0), r(2, 0)), w(0, r(3, 0), r(4, 0)), w(0, r(5, 0), r(6, 0)), k("unhold"),
+			adv(310), w(1, r(7, 0)), adv(10), k("tick")}},
+		// (b') same overflow, but no tick before the rotated file is older than safeAge: the flag branch
+		// purges before it replays
+		{"loss:queue-full-drop-purged-before-replay-after-safeAge", true, 1, []op{k("restart"), k("hold"),
 			w(0, r(1, 0), r(2, 0)), w(0, r(3, 0), r(4, 0)), w(0, r(5, 0), r(6, 0)), k("unhold"),
 			adv(310), w(1, r(7, 0)), adv(1810), k("tick")}},
 		// (c) outage longer than safeAge: the tick purges the rotated file before replaying it
